@@ -35,10 +35,15 @@ SSC_ONLY = ["VERSION", "ORIGIN", "LABELS", "MUSICLENGTH", "LASTSECONDHINT", "PRE
 
 
 def anchors():
-    from simfile import convert as C
+    from ..core import pick
 
-    return {"_convert": C._convert, "_copy_properties": C._copy_properties, "_should_copy_property": C._should_copy_property,
-            "_convert_warps": C._convert_warps, "sm_to_ssc": C.sm_to_ssc}
+    return pick(
+        "simfile.convert:_convert",
+        "simfile.convert:_copy_properties",
+        "simfile.convert:_should_copy_property",
+        "simfile.convert:_convert_warps",
+        "simfile.convert:sm_to_ssc",
+    )
 
 
 def timing_ops(rng, negative):
